@@ -51,6 +51,28 @@ def check_case(c):
     text, _ = render.render(c['doc'], ctx['implicit'])
     render.check_faithful(c['doc'], text, ctx['implicit'])
     node = yaml.compose(text, Loader=yaml.SafeLoader)
+    # plain PyYAML types plain scalars by YAML 1.1 (`yes` is a bool there);
+    # the helpers are used on nodes composed by yatiml's loader: give every
+    # plain scalar the tag it has in the abstract document
+    seen = set()
+
+    def retag(nd, i):
+        if id(nd) in seen:
+            return
+        seen.add(id(nd))
+        ab = c['doc']['h'][i - 1]
+        kids = ab['c'] if isinstance(ab['c'], list) else []
+        if isinstance(nd, yaml.ScalarNode):
+            if nd.style is None:
+                nd.tag = render.realtag(ab['t'])
+        elif isinstance(nd, yaml.SequenceNode):
+            for x, j in zip(nd.value, kids):
+                retag(x, j)
+        else:
+            for (k, v), j in zip(nd.value, range(0, len(kids), 2)):
+                retag(k, kids[j])
+                retag(v, kids[j + 1])
+    retag(node, c['doc']['r'])
     errs = []
     n = [0]
 
